@@ -182,6 +182,8 @@ class SimpleTypeChecker(walkers.DagWalker):
         target_width = formula.bv_width()
         if target_width < formula.bv_rotation_step() or target_width < 0:
             return None
+        if formula.bv_rotation_step() < 0:
+            return None
         if target_width != cast(types._BVType, args[0]).width:
             return None
         return BVType(target_width)
